@@ -18,10 +18,14 @@ EXPLANATION = (
     "two flag tables of the glyf format from the compiled constants and compares them with the OpenType specification (T16-FLAGS: "
     "simple glyph flags 0x01..0x20, composite glyph flags 0x0001..0x1000) and checks that every flag predicate tests its own constant "
     "(T16-PRED: `self & X == X` with X the constant the method is named after): a wrong bit or a swapped predicate mis-decodes flags, "
-    "coordinates, component arguments or transforms of some well-formed glyph."
+    "coordinates, component arguments or transforms of some well-formed glyph. Composite semantics: the accumulated transform reaches nested "
+    "components (T16-COMP), the 2x2 transform entries reach the matrix in the specification's positions (T16-MAT), outline and bounding box both "
+    "honour SCALED_COMPONENT_OFFSET (T16-OFFS). Contour semantics: the start point and the walked index range of a contour follow the decision table "
+    "on-curve/off-curve first and last point, the closing-edge look-ahead wraps modulo the contour length (T16-ORIGIN), every contour is one "
+    "move_to .. close sub-path and every delivered point is transformed exactly once (T16-SUB)."
 )
-NOT_DECIDED = ("contour walking (origin selection, implied on-curve points, closing edge), coordinate decoding arithmetic, component offset "
-               "scaling and transform composition are value properties and are not decided; all seeded changes against C16 (DESIGN 11.5) are of that kind.")
+NOT_DECIDED = ("coordinate decoding arithmetic (short/same deltas, repeat counts), the implied mid-point insertion inside Points::next beyond its wrap "
+               "modulus, and the numeric values of offsets and scales are value properties and are not decided.")
 
 FILES = ("src/tables/glyf.rs", "src/tables/glyf/outline.rs", "src/outline.rs")
 
@@ -128,7 +132,7 @@ def t16_comp(run, fx):
 
 def _leaf_call_block(term, suffix):
     for x in sym.walk(term):
-        if x[0] == "call" and (x[1] or "").endswith(suffix):
+        if x[0] == "call" and suffix in (x[1] or ""):
             return x[3]
     return None
 
@@ -330,14 +334,13 @@ def t16_sub(run, fx):
         if not sink.get("move_to") or not sink.get("close"):
             return run.anchor_missing(rule, "move_to and close calls in visit_simple_glyph_outline")
         mv = sink["move_to"][0][0]
-        # the contour loop: the innermost dominator of the move_to block that is reachable again from it
-        back = b.reach_from(mv)
+        # the contour loop: the innermost loop header around the move_to block (a dominator with a back edge into it)
         hdr = None
         d = mv
         idom = b.idom()
         while d != 0:
             d = idom[d]
-            if d in back and any(d in b.succs(x) for x in back):
+            if any(b.dominates(d, p) for p in b.preds(d)):
                 hdr = d
                 break
         if hdr is None:
